@@ -196,7 +196,11 @@ def run(ctx: Any, prog: Program) -> None:
     r_map = any(isinstance(n, ast.If) and isinstance(n.test, ast.Compare) and len(n.test.ops) == 1 and isinstance(n.test.ops[0], ast.Eq) and isinstance(n.test.left, ast.Name)
                 and dotted(n.test.comparators[0]) == 'DIR_ARCH_INDEX' and isinstance(n.body[0], ast.Assign) and dotted(n.body[0].targets[0]) == n.test.left.id
                 and isinstance(n.body[0].value, ast.Constant) and n.body[0].value.value is None for n in walk_no_nested(ld))
-    w_map = any(isinstance(n, ast.If) and U(n.test) == 'info.arch_index is None' and U(n.body[0]) == 'arch_ind = DIR_ARCH_INDEX' for n in walk_no_nested(wd))
+    w_map = any(isinstance(n, ast.If) and U(n.test) == 'info.arch_index is None' and U(n.body[0]) == 'arch_ind = DIR_ARCH_INDEX' for n in walk_no_nested(wd)) or \
+        any(isinstance(n, ast.IfExp) and isinstance(n.test, ast.Compare) and len(n.test.ops) == 1 and isinstance(n.test.left, ast.Attribute) and n.test.left.attr == 'arch_index'
+            and isinstance(n.test.comparators[0], ast.Constant) and n.test.comparators[0].value is None
+            and ((isinstance(n.test.ops[0], ast.Is) and dotted(n.body) == 'DIR_ARCH_INDEX' and isinstance(n.orelse, ast.Attribute) and n.orelse.attr == 'arch_index')
+                 or (isinstance(n.test.ops[0], ast.IsNot) and dotted(n.orelse) == 'DIR_ARCH_INDEX' and isinstance(n.body, ast.Attribute) and n.body.attr == 'arch_index')) for n in ast.walk(wd))
     ctx.shape('C13.Z2', r_map and w_map and isinstance(dai, int) and dai <= 0xffff, vpk, wd, 'None <-> DIR_ARCH_INDEX must be mapped in both directions and fit the 16-bit field', func='VPK.write_dirfile', text='dir archive index mapping')
     # nesting: three nested loops on both sides, one terminator per level
     def loop_depth(fn: ast.AST) -> int:
